@@ -168,7 +168,7 @@ def generate(seed, tier, focus="frame"):
             g.count("udpwire_kind_%d" % min(k, 3))
         # a flood while the consumer is busy (the queues between the kernel, the receive loop and the parse loop are full)
         for nf in ([20000] if tier == "quick" else [20000, 60000, 30000]):
-            lines.append("udpwire flood %d %d # spec=C10 eq ok n=%d intact-at-most-once-in-order # spec=C09 eq ok n=%d intact-at-most-once-in-order # spec=C08 eq ok n=%d intact-at-most-once-in-order" % (nf, len(lines), nf, nf, nf))
+            lines.append("udpwire flood %d %d # spec=C10 eq ok n=%d intact-at-most-once # spec=C09 eq ok n=%d intact-at-most-once # spec=C08 eq ok n=%d intact-at-most-once" % (nf, len(lines), nf, nf, nf))
             g.count("udpwire_floods")
     else:
         for i in range(400 if tier == "quick" else 8000):
